@@ -154,9 +154,52 @@ def probe_trs_strings(probe):
     return out
 
 
+def _shadow_pair(rng):
+    """
+    The same text under two settings that differ in exactly one setting on
+    whose witness text that setting matters: (probe op, shadow op).  Run as
+    prior activity, the shadow is what a memo keyed too coarsely confuses
+    the probe with.
+    """
+    if rng.random() < 0.65:
+        name = rng.choice(sorted(corpus.WITNESS))
+        if name == "wait_to_parse":
+            name = "ocr_scrub"
+        text = corpus.WITNESS[name]
+        if name == "ocr_scrub" and rng.random() < 0.5:
+            t, r = rng.randint(10, 160), rng.randint(10, 105)
+            text = (corpus.fmt_twprge(rng, (t, "N", r, "W"), 9)
+                    + f" Sec {rng.randint(1, 36)}: NE/4")
+        base = opgen.gen_sigma(rng, [n for n in opgen.ALL_SETTINGS if n not in
+                                     (name, "wait_to_parse", "layout")], 0, 1)
+        with_ = dict(base)
+        with_[name] = opgen.setting_value(rng, name, allow_false=False)
+        kw = {"parse_qq": True} if name in opgen.TRACT_LEVEL else {}
+        a = {"p": "desc", "text": text, "kw": dict(kw),
+             "config": opgen.settings_to_text(base) or None}
+        b = {"p": "desc", "text": text, "kw": dict(kw),
+             "config": opgen.settings_to_text(with_)}
+    else:
+        name = rng.choice(sorted(corpus.TRACT_WITNESS))
+        if name == "parse_qq":
+            name = "clean_qq"
+        text = corpus.TRACT_WITNESS[name]
+        with_ = {name: opgen.setting_value(rng, name, allow_false=False)}
+        trs = corpus.gen_trs_string(rng)
+        a = {"p": "tract", "text": text, "trs": trs, "config": None,
+             "kw": {"parse_qq": True}}
+        b = {"p": "tract", "text": text, "trs": trs,
+             "config": opgen.settings_to_text(with_), "kw": {"parse_qq": True}}
+    return (a, b) if rng.random() < 0.5 else (b, a)
+
+
 def gen_plan(rng):
     trs_pool = [corpus.gen_trs_string(rng) for _ in range(rng.randint(2, 4))]
     probe = [gen_probe_op(rng, trs_pool) for _ in range(rng.randint(1, 3))]
+    shadow = None
+    if rng.random() < 0.08:
+        p_op, shadow = _shadow_pair(rng)
+        probe[0] = p_op
     kinds = [k for k in ("other", "prewarm", "cache", "mc", "mutate", "fail",
                          "interrupt") if rng.random() < 0.6]
     n = rng.randint(0, 15) if kinds else 0
@@ -222,6 +265,8 @@ def gen_plan(rng):
             prior.append({"o": "interrupt", "at": rng.choice(
                 (rng.randint(1, 60), rng.randint(1, 600), rng.randint(1, 2500)))})
             prior.append({"o": "other", "probe": gen_probe_op(rng, trs_pool)})
+    if shadow is not None:
+        prior.insert(rng.randint(0, len(prior)), {"o": "other", "probe": shadow})
     if mc_dirty and rng.random() < 0.6:
         prior.append({"o": "mc_restore"})
     if rng.random() < 0.15 and "cache" in kinds:
